@@ -72,7 +72,8 @@ register('C19',
          'the system on all 3x3 systems over -1..1 (and all 59049 5x4 systems of a unit-like vocabulary in the thorough tier) and '
          'refutes the pinned row move and the pinned rounding offset (design-level counterexamples D4, D9). All those inputs plus '
          'sampled systems to 8x5, upper-triangular systems, pseudo-averages (all lifts enumerated by TLC), sieve, and random '
-         '1..4096-bit operands are replayed into the real functions and every record is validated by NTheoryTrace.tla.',
+         '1..4096-bit operands are replayed into the real functions and every record is validated by NTheoryTrace.tla.'
+         " Round 2: lll.reduce on small full-rank bases (same lattice by Cramer's rule, first vector within the LLL bound of the shortest, decided by TLC).",
          'Trusted: TLC; Python int/Fraction for operands beyond 32 bits (events *_big); mpmath monitor for Igamc/NormalCdf/'
          'BinomialCdf/CombinedPValue/UniformSumCdf(real x)/Bias (aux, not model checking). Small-root finders not driven yet.',
          'TLA+ specs (NTheory.tla, Echelon.tla) model-checked with TLC + TLC-enumerated inputs replayed + TLC trace validation',
@@ -87,7 +88,8 @@ register('C11',
          'Subtract/AddJacobian (random Z-scaling), all points x scalars -q..2q for Multiply/MultiplyAffine, batched operations on '
          'every list of <= 4 special-case classes (inf, same, opposite, double, generic) sharing one inversion, BatchInverse, '
          'BatchMultiplyG, PointSequence; TLC recomputes every result from its own law (EcTrace.tla). Named curves: same case '
-         'classes against a 30-line reference law, parameter sanity per CURVE_FACTORY entry (T2).',
+         'classes against a 30-line reference law, parameter sanity per CURVE_FACTORY entry (T2).'
+         ' Round 2: whole-group arithmetic on the cofactor-2 and cofactor-4 curves (EcGroup SpecAll model-checked; every pair of points incl. order two, scalars around q and q h).',
          'Trusted: TLC; for named curves refec.py and gmpy2.is_prime (Miller-Rabin). Curves with a cofactor are not used here (the '
          'property quantifies over prime-order groups).',
          'TLA+ group-law spec (EcGroup.tla) model-checked on whole small groups with TLC + exhaustive replay into EcCurve + TLC trace validation',
@@ -114,7 +116,8 @@ register('C09',
          'replayed over (d, k, z) grids (all pairs in the thorough tier), every hash bit string of length 0..8 (0..11 thorough) '
          'against the 7-bit orders (shorter, equal, longer, unaligned), and protobuf signatures with leading zero bytes; TLC '
          'recomputes r, s (certifying the reference signer), the truncated hash and the relation (EcTrace.tla). Named curves: '
-         'hash lengths 0..66 bytes on every curve, and Int2Bytes/Bytes2Int/Hex2Bytes on 0..65535 and up to 4096 bits (T2).',
+         'hash lengths 0..66 bytes on every curve, and Int2Bytes/Bytes2Int/Hex2Bytes on 0..65535 and up to 4096 bits (T2).'
+         " Rounds 2-3: Hex2Bytes compared on exact bytes; the modulus of the relation must be the order of the table's generator (reference arithmetic).",
          'Trusted: TLC; for named curves the reference signer (certified by TLC on the small curves), bits2int_ref and int.from_bytes.',
          'TLA+ spec (EcGroup.tla: Sign/Bits2Int/HnpRelation) model-checked with TLC + exhaustive small-curve replay + TLC trace validation',
          'DESIGN.md 5/C09')
@@ -128,7 +131,8 @@ register('C20',
          'the real JDK 17 (regenerated at run time) before it judges rng.JavaRandom byte for byte; the truncated LCG is '
          'specified from its recurrence and recomputed by TLC for state sizes 4..14 bits. Every registry generator is replayed '
          'for n in 1..130 and around every multiple of 8/32/64 up to 2048 (all n thorough) with two seeds and unseeded; purity '
-         'under interleaved calls for every seedable generator.',
+         'under interleaved calls for every seedable generator.'
+         ' Rounds 2-3: seeds whose low 32 / 64 bits are zero or beyond the state size, call histories with one seed on one generator object against a fresh process, Java seeds beyond 48 bits and negative (JDK fixture regenerated).',
          'Trusted: TLC, the JDK, hashlib digests for purity, Python-int reference recurrence for registry-size truncated LCGs. '
          'urandom and subsetsum* cannot be seeded by construction (range clause only). D5 is a known finding (repair would break '
          'the pinned rng_test.testTruncLcg).',
@@ -154,7 +158,8 @@ register('C17',
          'batch in a fresh process, the batch permuted, and the batch with healthy artifacts added. SoloTrace.tla decides: single '
          'checks give the same entry and evidence as alone; joint checks: flagged fresh => flagged later, permutation-equivariant, '
          'healthy neighbours neutral. The cache that makes this non-trivial (per-curve table shared by three searches) is '
-         'model-checked in Bsgs.tla for every reachable cache state; the bookkeeping side in Checks.tla.',
+         'model-checked in Bsgs.tla for every reachable cache state; the bookkeeping side in Checks.tla.'
+         ' Rounds 2-3: healthy behind weak / other curve, duplicates next to a close key in three orders, a low-Hamming-weight suspicion first, private values on the last baby-step table entry for the batch size at hand; forked settings bounded by a semaphore.',
          'Trusted: TLC, pv.checks.project, fork semantics for "fresh process". The oracle is the code\'s own verdict in another setting. '
          'Permutation/neighbour clauses for joint checks apply to decided (must/mustnot) artifacts only.',
          'TLA+ specs (Checks.tla, Bsgs.tla) model-checked with TLC + each simulated call replayed in five settings + TLC trace validation (SoloTrace.tla)',
@@ -165,7 +170,8 @@ register('C18',
          'three primes, empty and huge exponents, curve identifiers 0..25, coordinates 0 / p / x+p / huge / off-curve / y = 0, '
          'duplicates, empty and 64-byte hashes, r, s in {1, n-1}, invalid and unsupported issuer keys, empty batches) are replayed '
          'through every individual check and every entry point; ChecksTrace.tla rejects any exception or non-bool return and also '
-         'checks the bookkeeping and evidence clauses on these inputs.',
+         'checks the bookkeeping and evidence clauses on these inputs.'
+         ' Rounds 2-3: every library call runs under a deadline (non-termination = clause Total); moduli with Keypair-table prefixes at odd and even sizes; honest issuers with exactly 24 / 48 / 120 signatures; negative logarithms; the three entry points in one process in three orders.',
          'Trusted: TLC, record_call (exception class, type of the return value).',
          'TLA+ spec (Checks.tla: Total) model-checked with TLC + degenerate-batch histories generated by TLC replayed into every check + TLC trace validation',
          'DESIGN.md 5/C18')
@@ -178,7 +184,8 @@ register('C04',
          'bounds 1/2/1000/100000 and prime sizes 64..1024 (2048 thorough); (r, s) on and next to the line; every D x L). The harness '
          'builds a modulus per cell (exact Fermat step count, exact common bits), computes its attributes from p and q, runs the '
          'family\'s checks on protobufs, and ChecksTrace.tla applies the criterion: must flag / must not flag / both primes '
-         'recorded, plus all bookkeeping and evidence clauses.',
+         'recorded, plus all bookkeeping and evidence clauses.'
+         ' Rounds 2-3: Fermat.tla transcribes FermatFactor (TLC: every n <= 2500, a semiprime is factored exactly when (p+q)/2 - ceil(sqrt n) < max_steps) and FermatTrace validates the real function on every n < 3000 x five step bounds; splits with more than half of the low bits equal; upper differences on moduli of odd length; GMP Mersenne-Twister outputs regenerated with gmpy2 as table-independent ground truth.',
          'Trusted: TLC, pv.weak abstraction map, gmpy2 primality. Completeness of the Lehman/continued-fraction step is the claim '
          'itself: catalogue instances (seed derived from the cell). Quick tier stops at 1024-bit primes and 7 listed outputs per size.',
          'TLA+ criteria (FactorCriteria.tla) + TLC-generated boundary grid (FamilyGrid.tla) replayed on constructed moduli + TLC trace validation (ChecksTrace.tla)',
@@ -189,7 +196,8 @@ register('C05',
          '<= 64 bits, Hamming weights <= 32, shared 2^20-smooth part >= 2^60 with one smooth side (factored unless both are smooth). '
          'FamilyGrid.tla generates the cells with TLC (sizes 1024/2048, thorough 3072/4096); a modulus is built per cell, its actual '
          'attributes are computed from p and q, the family\'s check runs on protobufs and ChecksTrace.tla applies the criterion '
-         '(must flag, both primes recorded where the statement says factored, severity rule of CheckLowHammingWeight).',
+         '(must flag, both primes recorded where the statement says factored, severity rule of CheckLowHammingWeight).'
+         ' Rounds 2-3: cells covering every factor of the default Pollard product (1861 blocks of primes, 12 blocks of prime powers; quick: the boundary blocks), shared factors with prime powers beyond the product, slow starters of the low-Hamming-weight search (four catalogue instances are known findings).',
          'Trusted: TLC, pv.weak abstraction map. Why the 3-dimensional lattice / best-first search succeeds is outside the model: the '
          'specification states that it must on the documented region; catalogue instances.',
          'TLA+ criteria (FactorCriteria.tla) + TLC-generated family grid replayed on constructed moduli + TLC trace validation (ChecksTrace.tla)',
@@ -204,7 +212,8 @@ register('C01',
          'aggregate contexts (shared, nested, duplicate, several partners, N-1 with gcd bounds 1/2^64/2^128) and every public '
          'factoring helper. Each cell is replayed on real protobufs / function calls; ChecksTrace.tla checks on every record: each '
          'recorded value divides n (or n-1), one is proper unless n divides another modulus of the batch, evidence implies weak, '
-         'helpers return only divisors whose product is n.',
+         'helpers return only divisors whose product is n.'
+         ' Rounds 2-3: histories of one CheckKeypairDenylist object, re-check histories of the aggregate checks, even moduli whose successors share a large factor.',
          'Trusted: TLC, own parser of attached_info + one division per factor (pv.checks.project). Known finding: CheckGCD records '
          '{n, 1} when a modulus shares each prime with a different partner.',
          'TLA+ invariant (Checks.tla/ChecksTrace.tla FactorsSound) + TLC-generated class x check x parameter grid replayed + TLC trace validation',
@@ -216,7 +225,8 @@ register('C02',
          'directed batches with wrong-guess pressure (healthy signatures, bias below the margin, strongly biased nonces attributed '
          'to the negated issuer point, two curves and several issuers in one batch, structured and close private keys) go through '
          'every nonce / LCG / U2F / EC check; ChecksTrace.tla requires every recorded DISCRETE_LOG(_DIFF) to be true and every '
-         'positive nonce verdict to come with a verifiable private key.',
+         'positive nonce verdict to come with a verifiable private key.'
+         ' Rounds 2-3: 400 honest issuers next to three weak ones (hundreds of guesses in one call), a U2F-weak issuer in front of healthy ones.',
          'Trusted: TLC, refec.py reference multiplication, regex of the relation string. Keys that are not valid points are outside the claim.',
          'TLA+ group-law spec (EcGroup.tla) as oracle on small curves + verdict invariants (ChecksTrace.tla DlogSound) on TLC-generated batches + TLC trace validation',
          'DESIGN.md 5/C02')
@@ -226,7 +236,8 @@ register('C07',
          'and uniformly-nonced signatures, alone and mixed with weak neighbours (Fermat-close, shared prime, small, weak private '
          'key, off-curve, biased nonces, invalid issuer), are replayed through the all-checks entry points; ChecksTrace.tla requires '
          'every entry of a healthy artifact to be negative, the entry point to return False on all-healthy batches, and weak '
-         'neighbours to keep their own verdicts.',
+         'neighbours to keep their own verdicts.'
+         ' Rounds 2-3: healthy artifacts behind weak ones and behind another curve (n-1 pairs, shared primes, close EC keys, U2F and MSB issuers), padded field encodings, near-ROCA healthy semiprimes.',
          'Trusted: TLC, pv.gen (healthy = independent uniform primes / keys / nonces). Population size is what bounds the '
          'false-positive rate that can be seen: quick ~40 healthy artifacts, thorough ~2000.',
          'TLA+ invariant (Checks.tla HealthyNeverAccused) + TLC-simulated healthy/mixed batches through the entry points + TLC trace validation',
@@ -242,7 +253,8 @@ register('C06',
          'recomputes Valid from the definitional law. Boundary replays: 2^2047-1 / 2^2047 / 2^2048-1, leading-zero encodings of n '
          'and e, ROCA-structured moduli, moduli missing the ROCA / variant condition at exactly one prime (incl. residue 0), CRT-'
          'built variant moduli, custom Storage denylists (same hash under another key type), covered / uncovered Keypair seeds, '
-         'every named curve with off-curve / 0 / p / x+p / 2^521 coordinates, unknown and binary-field identifiers.',
+         'every named curve with off-curve / 0 / p / x+p / 2^521 coordinates, unknown and binary-field identifiers.'
+         ' Rounds 2-3: the 768 covered Keypair moduli come from a committed fixture (not from the generator under test) and all of them run in both tiers; histories of one CheckKeypairDenylist object; healthy semiprimes on the boundary of the ROCA fingerprint.',
          'Trusted: TLC, residues and bit lengths computed by the harness, hashlib fingerprint, reference on-curve test, the repository\'s '
          'keypair_generator as the definition of the vulnerable generator. Moduli divisible by one of the 48 primes are "may" for the variant.',
          'TLA+ exact criteria (FactorCriteria.tla, Roca.tla, EcGroup.tla Valid) evaluated by TLC on boundary replays + small-curve exhaustive validity',
@@ -258,7 +270,8 @@ register('C08',
          '(healthy same / other curve, second biased issuer) x interleaving x duplicates. Each layout is signed with the reference '
          'signer (LCG nonces from the system libgmp itself), run through the real check with the solver entry wrapped, and '
          'HnpTrace.tla decides: every signature of a must-group flagged with the correct key, other issuers keep their verdict, '
-         'no flag without a correct key, multiset of solver-call sizes equals the specification\'s.',
+         'no flag without a correct key, multiset of solver-call sizes equals the specification\'s.'
+         ' Rounds 2-3: SigPipeline.tla (bookkeeping of BiasedBaseCheck over an interleaved batch; TLC checks ExactlyTheWeak on all 5040 interleavings of four issuers on two curves, refutes the index confusion, and prints every layout with its verdicts for replay); biases 128 / 176 (few signatures); hash lengths other than the order length.',
          'Trusted: TLC, reference signer, reference multiplication of the recorded key, libgmp. Success of lattice reduction on the '
          'margin is the claim itself (catalogue instances); misses of the multiplied form at exactly 2x the curve size are known findings.',
          'TLA+ spec (HnpWindows.tla) model-checked with TLC + TLC-generated layout grid signed and replayed + TLC trace validation (HnpTrace.tla)',
